@@ -39,7 +39,7 @@ class FakeManager:
         return self
 
 
-def install(seed, max_steps=400000, max_virtual=600.0):
+def install(seed, max_steps=3000000, max_virtual=3000.0):
     """Creates a fresh scheduler and rebinds mpire's globals.  Returns the scheduler."""
     uninstall()
     S = sim.Sched(seed, max_steps=max_steps, max_virtual=max_virtual)
